@@ -980,6 +980,16 @@ def directed_sequences(backend):
                 target = via or new
                 for op in (("add", 1, target, 2), ("setitem", 1, target, 2), ("set", 1, target, "none", 2), ("set", 1, target, "zero", 2)):
                     out.append(pre + link + [op, ("reopen", 0), ("add", 0, new, 3), ("del", 0, existing), ("add", 0, target, 3)])
+    # a name whose storage changes kind: direct ref, packed, then overwritten by a symbolic ref (the packed entry stays
+    # behind the loose symref), then removed in each of the ways there are
+    if BACKENDS[backend].has_pack:
+        for name in (b"refs/heads/sym", b"refs/heads/sym2", b"refs/remotes/o/HEAD"):
+            for dst in (b"refs/heads/b", b"refs/heads/a/b"):
+                for removal in (("del", 1, name), ("rm", 1, name, "none"), ("rm", 0, name, "cur"), ("rm", 1, name, "v0"), ("setitem", 1, name, 2)):
+                    for packer in (("pack", 0, 1), ("git-pack",)):
+                        if packer[0] == "git-pack" and not BACKENDS[backend].has_git:
+                            continue
+                        out.append([("setitem", 0, b"refs/heads/b", 1), ("setitem", 0, name, 0), packer, ("symref", 0, name, dst), removal, ("reopen", 0), ("add", 0, name, 3)])
     return out
 
 
